@@ -523,6 +523,9 @@ struct Reference {
     /// a header of an event group (READ by type, any variation) was selected since the last reset: the
     /// variation in which an event is reported may then be the requested one
     typed_event_select: bool,
+    /// all three classes were selected without limit (g60v2..4, all objects) since the last reset, when the
+    /// ledger had this many entries: a response reported complete has carried every one of them that is alive
+    full_class_select: Option<usize>,
 }
 
 impl Reference {
@@ -546,6 +549,7 @@ impl Reference {
             e.carried = false;
         }
         self.typed_event_select = false;
+        self.full_class_select = None;
         self.end_series();
     }
 }
@@ -877,7 +881,11 @@ pub fn run(ops: &str, out: &mut dyn Write, mon_w: &mut dyn Write) {
                             if iin2 & 0x04 != 0 {
                                 rf.series_unreliable = true; // selection queue overflow: not everything was selected
                             }
-                            for (g, v, q, a, b) in static_headers(&bytes) {
+                            let hs = static_headers(&bytes);
+                            if iin2 == 0 && rf.full_class_select.is_none() && [2u8, 3, 4].iter().all(|c| hs.iter().any(|h| h.0 == 60 && h.1 == *c && h.2 == 0x06)) {
+                                rf.full_class_select = Some(rf.ledger.len());
+                            }
+                            for (g, v, q, a, b) in hs {
                                 if Ty::from_event_group(g).is_some() {
                                     rf.typed_event_select = true;
                                 }
@@ -962,6 +970,16 @@ pub fn run(ops: &str, out: &mut dyn Write, mon_w: &mut dyn Write) {
                                 }
                             }
                             m.stats.add("event_objects_checked", matched as u64);
+                            // ---- C03 / C02: a complete answer to "all three classes" has carried every event that
+                            // was recorded and alive when the request was processed
+                            if !is_unsol && complete {
+                                if let Some(n) = rf.full_class_select.take() {
+                                    match rf.ledger[..n].iter().find(|e| e.state == LState::Live && !e.carried) {
+                                        Some(e) => m.fail("complete_class_poll_carries_every_event", None, &format!("op {opn}: event {} ({} {}) recorded, alive, of a class asked for, and in no fragment of the complete response", e.id, e.ty.code(), e.index)),
+                                        None => m.stats.hit("complete_class_poll_checked"),
+                                    }
+                                }
+                            }
                             if has_events != !pr.events.is_empty() {
                                 m.fail("has_events_flag", None, &format!("op {opn}: has_events={has_events}, {} event objects", pr.events.len()));
                             }
@@ -1537,6 +1555,43 @@ pub fn gen(thorough: bool, seed: u64, w: &mut dyn Write) {
         }
         g.line("select 3c0206");
         g.line("write 2044");
+        g.line("clear");
+        g.line("iin");
+    }
+
+    // (0d) every type's event buffer filled to its capacity, in a random order of types, then the class poll:
+    //      the shared event list holds the sum of the per-type capacities, every recorded event that was not
+    //      reported overflow-discarded is in the complete answer (S93 / S98)
+    let n_full = if thorough { 2000 } else { 60 };
+    for _ in 0..n_full {
+        let caps: Vec<u64> = (0..8).map(|_| if r.chance(1, 2) { 1 } else { r.range(1, 4) }).collect();
+        g.hdr("fullbuf", "");
+        g.line(&format!("newc {} 255", caps.iter().map(|c| c.to_string()).collect::<Vec<_>>().join(" ")));
+        let mut gs = GState { pts: Default::default(), active: Ty::ALL.to_vec(), time: 1000, counter: 0, dense: true };
+        for ty in Ty::ALL {
+            for idx in 0..2u16 {
+                g.line(&format!("add {} {} {}", ty.code(), idx, r.range(1, 3)));
+                gs.note(ty, idx);
+            }
+        }
+        let mut order: Vec<Ty> = Ty::ALL.to_vec();
+        for i in (1..order.len()).rev() {
+            let j = r.below(i as u64 + 1) as usize;
+            order.swap(i, j);
+        }
+        let over = r.chance(1, 3);
+        for ty in order {
+            // enough updates to fill the type (a few may be no-events), sometimes one more (a reported overflow)
+            let n = caps[ty.idx()] * 2 + if over { 2 } else { 0 };
+            for _ in 0..n {
+                let l = gen_upd(&mut gs, &mut r, ty);
+                g.line(&l);
+            }
+        }
+        g.line("select 3c02063c03063c0406");
+        g.line("write 2048");
+        g.line("write 2048");
+        g.line("write 2048");
         g.line("clear");
         g.line("iin");
     }
